@@ -352,18 +352,27 @@ func (s *Srv) OpenIn(path, host string) (*InClient, error) { return OpenInAt(s.D
 
 // OpenInAt is OpenIn through an explicit address (e.g. a link-local one).
 func OpenInAt(addr, path, host string) (*InClient, error) {
+	return OpenInMethodAt(addr, "GET", path, host)
+}
+
+// OpenInMethodAt is OpenInAt with an explicit request method (no body).
+func OpenInMethodAt(addr, method, path, host string) (*InClient, error) {
 	c, err := DialAddr(addr, "")
 	if err != nil {
 		return nil, err
 	}
 	c.C.SetDeadline(time.Time{})
-	if _, err := fmt.Fprintf(c.C, "GET %s HTTP/1.1\r\nHost: %s\r\nUser-Agent: verif\r\n\r\n", path, host); err != nil {
+	cl := ""
+	if method != "GET" && method != "HEAD" {
+		cl = "Content-Length: 0\r\n"
+	}
+	if _, err := fmt.Fprintf(c.C, "%s %s HTTP/1.1\r\nHost: %s\r\nUser-Agent: verif\r\n%s\r\n", method, path, host, cl); err != nil {
 		c.Close()
 		return nil, err
 	}
 	ic := &InClient{c: c}
 	ic.cond = sync.NewCond(&ic.mu)
-	go ic.readLoop("GET")
+	go ic.readLoop(method)
 	return ic, nil
 }
 
